@@ -65,12 +65,16 @@ def conformsRow (tys : List Ty) (r : Row) : Bool :=
 
 /-- NOT NULL columns hold no NULL -/
 def respectsNotNull (notNull : List Bool) (r : Row) : Bool :=
-  (List.range r.length).all (fun i => !(notNull.getD i false) || r.getD i .null != .null)
+  (List.range notNull.length).all (fun i => !(notNull.getD i false) || r.getD i .null != .null)
 
 def wfTable (tb : STable) : Bool :=
   tb.rows.all (fun x => conformsRow tb.tys x.2 && respectsNotNull tb.notNull x.2)
 
 def wfStore (st : Store) : Bool := st.all wfTable
+
+/-- every index of every table agrees with the table, and row ids identify rows -/
+def StoreConsistent (st : Store) : Prop :=
+  ∀ tb ∈ st, RidsDistinct tb.rows ∧ ∀ ix ∈ tb.indexes, IndexConsistent ix tb.rows
 
 /-! ## Column traversals (map_columns / any_column of rules.rs) -/
 
@@ -390,42 +394,40 @@ def joinAssoc (D : Defects) (st : Store) : Plan → Option Plan
 /-! ## Range bounds and the index scan rule (FilterToIndexScanRule) -/
 
 /-- position of a column in the key of an index -/
-def keyPos (ixcols : List Nat) (c : Nat) : Option Nat :=
-  let i := ixcols.idxOf c
-  if i < ixcols.length then some i else none
+def keyPos : List Nat → Nat → Option Nat
+  | [], _ => none
+  | x :: xs, c => if x = c then some 0 else (keyPos xs c).map (· + 1)
 
-/-- what one conjunct contributes: start bounds, end bounds, residual conjuncts (`collect_bounds`, one leaf) -/
-def boundOfConjunct (ixcols : List Nat) (e : Expr) : List Bound × List Bound × List Expr :=
-  let viaLeft : Option (List Bound × List Bound) := match e with
-    | .cmp op (.col c) (.lit v) =>
-      match keyPos ixcols c with
-      | some pos => match op with
-        | .eq => some ([⟨pos, v, true⟩], [⟨pos, v, true⟩])
-        | .gt => some ([⟨pos, v, false⟩], [])
-        | .ge => some ([⟨pos, v, true⟩], [])
-        | .lt => some ([], [⟨pos, v, false⟩])
-        | .le => some ([], [⟨pos, v, true⟩])
-        | .ne => none
-      | none => none
-    | _ => none
-  match viaLeft with
-  | some (lo, hi) => (lo, hi, [])
-  | none =>
-    let viaRight : Option (List Bound × List Bound) := match e with
-      | .cmp op (.lit v) (.col c) =>
-        match keyPos ixcols c with
-        | some pos => match op with
-          | .eq => some ([⟨pos, v, true⟩], [⟨pos, v, true⟩])
-          | .lt => some ([⟨pos, v, false⟩], [])
-          | .le => some ([⟨pos, v, true⟩], [])
-          | .gt => some ([], [⟨pos, v, false⟩])
-          | .ge => some ([], [⟨pos, v, true⟩])
-          | .ne => none
-        | none => none
-      | _ => none
-    match viaRight with
+/-- bounds from `column op literal`: (start bounds, end bounds) -/
+def boundsColLit (pos : Nat) (v : Value) : CmpOp → Option (List Bound × List Bound)
+  | .eq => some ([⟨pos, v, true⟩], [⟨pos, v, true⟩])
+  | .gt => some ([⟨pos, v, false⟩], [])
+  | .ge => some ([⟨pos, v, true⟩], [])
+  | .lt => some ([], [⟨pos, v, false⟩])
+  | .le => some ([], [⟨pos, v, true⟩])
+  | .ne => none
+
+/-- bounds from `literal op column` -/
+def boundsLitCol (pos : Nat) (v : Value) : CmpOp → Option (List Bound × List Bound)
+  | .eq => some ([⟨pos, v, true⟩], [⟨pos, v, true⟩])
+  | .lt => some ([⟨pos, v, false⟩], [])
+  | .le => some ([⟨pos, v, true⟩], [])
+  | .gt => some ([], [⟨pos, v, false⟩])
+  | .ge => some ([], [⟨pos, v, true⟩])
+  | .ne => none
+
+/-- what one conjunct contributes: start bounds, end bounds, residual conjuncts (`collect_bounds`, one leaf): a
+    comparison of an indexed column with a literal, either way round, becomes bounds; everything else is residual -/
+def boundOfConjunct (ixcols : List Nat) : Expr → List Bound × List Bound × List Expr
+  | .cmp op (.col c) (.lit v) =>
+    match (keyPos ixcols c).bind (fun pos => boundsColLit pos v op) with
     | some (lo, hi) => (lo, hi, [])
-    | none => ([], [], [e])
+    | none => ([], [], [.cmp op (.col c) (.lit v)])
+  | .cmp op (.lit v) (.col c) =>
+    match (keyPos ixcols c).bind (fun pos => boundsLitCol pos v op) with
+    | some (lo, hi) => (lo, hi, [])
+    | none => ([], [], [.cmp op (.lit v) (.col c)])
+  | e => ([], [], [e])
 
 /-- `extract_index_bounds`: (range start, range end, residual predicate) of a predicate for an index over `ixcols` -/
 def extractBounds (ixcols : List Nat) (p : Expr) : List Bound × List Bound × Option Expr :=
